@@ -463,3 +463,9 @@ def _foundations(rep: Report, prog: Program) -> None:
 
     records_transparent(rep, "R5.6", prog, ["redress.policy.state:_RetryDecision", "redress.strategies:BackoffContext", "redress.classify:Classification", "redress.policy.retry_helpers:_AttemptOutcome"])
     rep.floor("R5.6", 4)
+
+    rep.rule("R5.8", "the delay a deferred retry reports to the caller is the delay that was computed: on every SCHEDULED path of determine_action_from_outcome - exception- or result-caused - next_sleep_s is outcome.sleep_s, and only there (= the next_sleep_s column of C04 R4.3)")
+    from .c04 import scheduled_action_fields
+
+    scheduled_action_fields(rep, "R5.8", prog, only=("next_sleep_s",))
+    rep.floor("R5.8", 2)
